@@ -32,6 +32,11 @@ TOKEN_MUST_REJECT = {
 }
 
 
+# what uuid.Parse (google/uuid v1.6.0) accepts — an independent re-statement for the oracle (bytes; `.` = any byte, DOTALL)
+_C = rb"[0-9a-fA-F]{8}-[0-9a-fA-F]{4}-[0-9a-fA-F]{4}-[0-9a-fA-F]{4}-[0-9a-fA-F]{12}"
+JTI_RE = re.compile(rb"\A(?:" + _C + rb"|[uU][rR][nN]:[uU][uU][iI][dD]:" + _C + rb"|." + _C + rb".|[0-9a-fA-F]{32})\Z", re.DOTALL)
+
+
 def first_seg(path):
     return path.strip("/").split("/")[0]
 
@@ -57,7 +62,8 @@ def target_form(show):
 
 def run(ctx):
     facts = ctx.facts()
-    thms = ctx.build_and_audit(["NutsProofs.Props.C04"])
+    ctx._c04_facts = facts or {}
+    thms = ctx.build_and_audit(["NutsProofs.Props.C04", "NutsProofs.Props.C04L", "NutsProofs.Props.C04J"])
     required = ["no_bypass", "granted_sound", "denied_is_401_no_effect", "denied_guarded_runs_nothing", "internal_never_public",
                 "same_address_shared", "configured_binds", "requestURI_selector_admits_bypass", "requestURI_selector_admits_query_bypass",
                 "without_exp_check_zero_exp_never_expires", "atLeastOne_rule_admits_two_signatures",
@@ -66,7 +72,14 @@ def run(ctx):
                 "fact_registered_first_segments", "fact_default_addresses_differ", "fact_auth_types", "configure_auth_sound",
                 "fact_authorized_keys", "authorized_keys_sound", "commented_out_line_is_dead", "text_after_hash_is_ignored",
                 "fact_middleware_stateless", "decision_independent_of_history", "fact_middleware_order",
-                "fact_middleware_handler_is_a_fresh_closure", "fact_matches_path_is_a_plain_prefix_test"]
+                "fact_middleware_handler_is_a_fresh_closure", "fact_matches_path_is_a_plain_prefix_test",
+                # deepening round 2026-09-28: the rate limiter behind the guard, the jti grammar, the RSA strength rule
+                "fact_limiter_condition", "fact_limiter_params", "fact_limiter_skipper", "fact_limited_routes_are_guarded", "fact_limiter_methods",
+                "limiter_engages_only_behind_guard", "denied_keeps_budget", "denied_keeps_budget_facts", "too_many_only_when_authenticated",
+                "limiter_refines_guard", "limiter_transparent_with_budget", "no_bypass_limited", "budget_spent_le_granted",
+                "anonymous_history_cannot_drain", "limiter_enabled_iff",
+                "fact_jti_check", "fact_uuid_module_version", "fact_rsa_strength_is_modulus_bit_length", "jti_accepted_shapes",
+                "uuid_with_extra_text_rejected", "byte_rounded_strength_rule_admits_weak_keys"]
     for r in required:
         if not any(t.endswith("Props." + r) for t in thms):
             ctx.oblige("thm-present:" + r, False, "theorem missing or its module does not build")
@@ -173,6 +186,10 @@ def http_part(ctx, out):
     bursts = {}
     n_req = o_bypass = o_401 = o_public = o_abort = o_429 = 0
     o_cfg = n_overlap = o_overlap = 0
+    o_lim = n_lim = n_lim_void = o_drain = 0
+    lim_legs = {}            # engine -> ops of its rate limiter leg (for replays: the bucket is engine-wide state)
+    lim_good = Counter()     # engine -> requests with a valid credential to a listed route seen so far
+    lim_tbl = getattr(ctx, "_c04_facts", {}).get("limiterTable") or {}
     for i, line in enumerate(impl):
         if i >= len(ops) or not ops[i]:
             continue
@@ -184,6 +201,45 @@ def http_part(ctx, out):
                 o_cfg += 1
                 ctx.violation("C04:configure:silently-unauthenticated", f"Configure accepted auth type {typ!r} with authorized_keys '{kf}' without error: "
                               "the internal API would run without (working) authentication", "configure-silently-unauthenticated.jsonl", ops[i])
+            continue
+        if op.get("op") == "skipped":
+            n_lim_void += 1
+            continue
+        if op.get("op") == "lim":
+            # O8 (in-process, the real applyRateLimiterMiddleware): in strict mode (or with the flag) and did:nuts enabled the limiter IS
+            # installed; once installed it only ever refuses calls on a (method, path) pair of the source's table, and never one of the
+            # first 30 (the burst) of those
+            n_lim += 1
+            must_on = (op.get("strict", False) or op.get("flag", False)) and "nuts" in (op.get("dm") or [])
+            what = None
+            if line == "skipped":
+                n_lim_void += 1
+            elif (line == "off") == must_on:
+                what = f"rate limiter {'not ' if must_on else ''}installed for strictmode={op.get('strict', False)} internalratelimiter={op.get('flag', False)} didmethods={op.get('dm')}"
+            elif line != "off":
+                res = line.split(",")
+                listed_seen = 0
+                for c, rr in zip(op.get("calls", []), res):
+                    pth = bytes.fromhex(c["p"]).decode("latin-1")
+                    listed = pth in lim_tbl.get(c["m"], [])
+                    if rr not in ("ok", "429"):
+                        what = f"call {c['m']} {pth!r} -> {rr}"
+                    elif rr == "429" and not listed:
+                        what = f"{c['m']} {pth!r} is not a rate-limited route of engine.go's table but was refused 429"
+                    elif rr == "429" and listed_seen < 30:
+                        what = f"{c['m']} {pth!r} refused 429 after only {listed_seen} rate-limited calls (burst is 30)"
+                    elif rr == "ok" and listed and listed_seen >= 30:
+                        what = f"{c['m']} {pth!r} served although the budget of 30 was used up ({listed_seen} rate-limited calls before it)"
+                    if listed and rr == "ok":
+                        listed_seen += 1
+                    if what:
+                        break
+            if what:
+                o_lim += 1
+                if "C04:limiter:wiring" not in seen_sig:
+                    seen_sig.add("C04:limiter:wiring")
+                    ctx.violation("C04:limiter:wiring", "internal rate limiter (applyRateLimiterMiddleware / newInternalRateLimiter): " + what,
+                                  "limiter-wiring.jsonl", ops[i])
             continue
         if op.get("op") == "overlap":
             # O7 two requests in flight at the same time: each is answered by its own handler, on its own listener, with its own user
@@ -232,6 +288,20 @@ def http_part(ctx, out):
 
         if op.get("tag") == "burst":
             bursts.setdefault(op["eng"], []).append(ops[i])
+        if op.get("tag") == "lim":
+            # O9 failures have NO side effect on the limiter's budget: on an engine with token auth, however many failed requests came
+            # before, the first 30 requests that carry a valid credential are never refused 429 (and O6: a failure is never a 429)
+            lim_legs.setdefault(op["eng"], []).append(ops[i])
+            if eng.get("auth") and VALID_CREDS.get(op["cred"]) is not None:
+                lim_good[op["eng"]] += 1
+                if status == 429 and lim_good[op["eng"]] <= 30:
+                    o_drain += 1
+                    sig = "C04:limiter:budget-used-by-failed-requests"
+                    if sig not in seen_sig:
+                        seen_sig.add(sig)
+                        ctx.violation(sig, f"request #{lim_good[op['eng']]} with a valid credential on engine {op['eng']} ({op['m']} {op.get('show')}) was refused 429: "
+                                      "the rate limiter's budget of 30 was used up by requests that failed authentication (a failure must have no side effect)",
+                                      "limiter-budget-used-by-failed-requests.jsonl", "\n".join(lim_legs[op["eng"]]))
 
         def report(kind, what):
             sig = f"C04:{kind}:{form}"
@@ -239,8 +309,13 @@ def http_part(ctx, out):
                 return
             seen_sig.add(sig)
             if kind == "auth-failure-answered-429":   # needs the requests that exhausted the limiter before it
+                before = lim_legs.get(op["eng"], []) if op.get("tag") == "lim" else bursts.get(op["eng"], []) + ([] if op.get("tag") == "burst" else [ops[i]])
                 ctx.violation(sig, f"{what}: {op['m']} {op.get('show')} on engine {op['eng']}/{op['lis']} with credential '{op['cred']}' -> {line}",
-                              f"{kind}-{form}.jsonl", "\n".join(bursts.get(op["eng"], []) + ([] if op.get("tag") == "burst" else [ops[i]])))
+                              f"{kind}-{form}.jsonl", "\n".join(before))
+                return
+            if op.get("tag") == "lim":                # the bucket is engine-wide state: replay the leg up to here
+                ctx.violation(sig, f"{what}: {op['m']} {op.get('show')} on engine {op['eng']}/{op['lis']} with credential '{op['cred']}' -> {line}",
+                              f"{kind}-{form}.jsonl", "\n".join(lim_legs.get(op["eng"], [])))
                 return
             ctx.violation(sig, f"{what}: {op['m']} {op.get('show')} on engine {op['eng']}/{op['lis']} with credential '{op['cred']}' -> {line}",
                           f"{kind}-{form}.jsonl", ops[i])
@@ -280,8 +355,12 @@ def http_part(ctx, out):
     ctx.oblige("oracle:auth-failures-are-401-not-429(impl)", o_429 == 0, f"{o_429} requests")
     ctx.oblige("oracle:overlapping-requests-answered-as-if-alone(impl)", o_overlap == 0, f"{o_overlap} of {2 * n_overlap} request halves")
     ctx.oblige("oracle:internal-routes-never-on-public-listener(impl)", o_public == 0, f"{o_public} requests")
+    ctx.oblige("oracle:limiter-installed-iff-configured-and-refuses-only-listed-routes-after-the-burst(impl)", o_lim == 0, f"{o_lim} of {n_lim} configurations")
+    ctx.oblige("oracle:failed-requests-do-not-use-the-limiter-budget(impl)", o_drain == 0, f"{o_drain} requests")
+    if n_lim_void:
+        ctx.cov.setdefault("notes", []).append(f"{n_lim_void} rate limiter ops voided (leg took longer than 20 s)")
 
-    correspondence(ctx, "http", impl, model, bad, ops, o_bypass + o_401 + o_public + o_cfg + o_abort + o_429 + o_overlap)
+    correspondence(ctx, "http", impl, model, bad, ops, o_bypass + o_401 + o_public + o_cfg + o_abort + o_429 + o_overlap + o_lim + o_drain)
     d = {"requests": n_req, "target_forms": dict(forms), "status": {str(k): v for k, v in sorted(statuses.items())},
          "credential_kinds": dict(creds), "methods": dict(methods), "other_differential_lines": len(impl) - n_req}
     ctx.cov["samples"] = [ops[1][:300] if len(ops) > 1 else "", impl[1][:100] if len(impl) > 1 else ""]
@@ -298,11 +377,15 @@ def token_part(ctx, out):
     distinct = set()
     seen_sig = set()
     o_bad = 0
+    n_uuid = 0
     for i, line in enumerate(impl):
         if i >= len(ops) or not ops[i]:
             continue
         op = json.loads(ops[i])
         if op.get("op") == "akeys":
+            continue
+        if op.get("op") == "uuid":
+            n_uuid += 1
             continue
         cls = op["class"]
         res = line.split(" ")[0]
@@ -322,6 +405,13 @@ def token_part(ctx, out):
         elif res == "granted" and (op["tok"]["claims"].get("iat") is None or op["tok"]["claims"]["exp"] - op["tok"]["claims"]["iat"] > 1470 * 60):
             why = f"granted although exp - iat = {op['tok']['claims']['exp'] - op['tok']['claims']['iat']} s exceeds 24.5 h"
             cls_sig = "lifetime-too-long"
+        elif res == "granted" and op["tok"]["claims"].get("jtis") is not None and not JTI_RE.match(bytes.fromhex(op["tok"]["claims"]["jtis"])):
+            why = (f"granted although its token id {bytes.fromhex(op['tok']['claims']['jtis'])[:80]!r} is not a UUID "
+                   "(canonical 8-4-4-4-12, urn:uuid: + canonical, one byte + canonical + one byte, or 32 hex digits)")
+            cls_sig = "jti-not-uuid"
+        elif res == "granted" and 0 < op.get("kbits", 0) < 2048:
+            why = f"granted although the signing key is an RSA key with a {op['kbits']}-bit modulus (authorised RSA keys have at least 2048 bits)"
+            cls_sig = "key-weak-rsa"
         elif res == "granted" and op.get("by") not in ("signer",):
             why = f"granted although no authorised key owned by the issuer signed it (signed by: {op.get('by')})"
             cls_sig = "not-signed-by-owner"
@@ -338,7 +428,7 @@ def token_part(ctx, out):
     ctx.oblige("oracle:granted-only-for-tokens-the-property-allows(impl)", o_bad == 0, f"{o_bad} variants")
     ctx.oblige("non-vacuous:some-valid-token-granted(impl)", ctx.replay is not None or results["granted"] > 0, str(dict(results)))
     correspondence(ctx, "tokenV2", impl, model, bad, ops, o_bad)
-    return len(impl), len(bad), {"variants": len(impl), "classes": dict(classes), "results": dict(results)}, distinct
+    return len(impl), len(bad), {"variants": len(impl), "classes": dict(classes), "results": dict(results), "uuid_grammar_differential": n_uuid}, distinct
 
 
 def correspondence(ctx, name, impl, model, bad, ops, oracle_bad):
